@@ -154,3 +154,1225 @@ def _lstr(s):
     if not all(32 <= ord(c) < 127 and c not in '"\\' for c in s):
         raise TranslationError(f'label {s!r} is not plain ASCII')
     return '"' + s + '"'
+
+
+GENERATED = ['UnitTable', 'LammpsStyle']
+THEOREMS = [
+    # precedence of the hand-coded tokeniser/reducer (every rendering, every value algebra)
+    'C09.parse_precedence',
+    # set/get inverse
+    'C09.set_get_inverse', 'C09.set_get_inverse_parse',
+    # dimension homomorphism and working-unit independence
+    'C09.eval_dimension_hom', 'C09.eval_dimension_hom_ast', 'C09.same_dim_ratio_invariant', 'C09.dim_analysis_sound',
+    # reset_units with named working units: every chosen unit is 1
+    'C09.reset_named_units_are_one', 'C09.reset_named_units_parse_one', 'C09.parse_name', 'C09.table_names_valid',
+    # generated tables: numericalunits table facts, LAMMPS style tables
+    'C09.unit_table_ok', 'C09.style_table_dims', 'C09.style_table_names', 'C09.style_entry_scaling',
+]
+PARTIAL = {}
+RULE = ('expression trees over {numeric literal, unit name, *, /, ^} generated to depth 6 (exponents: integer-valued '
+        'literals or small integer-valued sub-expressions, negative included), rendered by the harness with minimal '
+        'parentheses plus random redundant parentheses and random runs of the four blank characters around every token; '
+        'malformed stream = 1-2 character edits of valid renderings plus a fixed list; working-unit configurations = SI, '
+        'the atomman default, numericalunits seeds, and named choices (every non-empty subset of the five keywords incl. the '
+        'over-determined and the five-keyword one, names drawn from the generated table by dimension, every name of every '
+        'kind at least once); values scalar/list/nested arrays of dyadic and generic doubles; set_literal terms '
+        '"number[ unit-expression]"; all eight style tables entry by entry; distinct = distinct (configuration, string) '
+        'resp. (choice) canonical form; non-trivial = the model returns a value (not an error case)')
+ASSUMPTIONS = [
+    'x ** 0.5 in reset_units is a parameter r of the model with r*r = x and r != 0 (the harness feeds the double square root)',
+    'IEEE double rounding: each float operation of the implementation has relative error <= 2^-53, libm pow <= 2 ulp, '
+    'every numericalunits value is within 16 roundings of const * m^a kg^b s^c C^d K^e; tolerances are derived from the '
+    'expression tree by first-order propagation (no tuned constants); cases whose exact intermediate magnitudes leave '
+    '[2^-830, 2^830] are not generated (overflow/underflow is outside the model)',
+    'non-integer exponents, the name rtHz (half-integral dimension), numerals beyond '
+    '[-]digits[.digits][e[+-]digits] (Python float() also reads 1_0, inf, nan, other Unicode digits), blank characters '
+    'other than space/tab/CR/LF, and alphabets other than ASCII/Latin/Greek letters are outside the model',
+    'malformed strings whose first token in a parenthesis group (or in the whole string) is ^ make uc.parse loop without '
+    'end (terms[c-1] wraps around to terms[-1]); a group consisting of the single token * or / is returned as that '
+    'string and then acts as an operator of the enclosing expression: both classes are outside the model (the model '
+    'answers "error") and are not sent to the real code',
+    'exception classes are not modelled: every exception of the real code corresponds to the model answering none',
+]
+TRUSTED = ['numericalunits (the generated table is measured from the installed package on every run)', 'numpy broadcasting',
+           'ast.literal_eval / float() on the modelled numerals', 'fractions.Fraction oracle in search()']
+
+U = 2.0 ** -53
+EU = 16.0            # roundings between a numericalunits value and const * prod(base^dim)
+WS = ' \n\r\t'
+ZERO5 = (0, 0, 0, 0, 0)
+MECH = ['mass', 'length', 'time', 'energy', 'velocity', 'force', 'torque', 'pressure', 'dynamic viscosity', 'density',
+        'ang-mom', 'ang-vel', 'volume', 'temperature']
+
+
+def _np():
+    import numpy as np
+    return np
+
+
+def _cps(s):
+    return ' '.join(str(ord(c)) for c in s)
+
+
+def _cpn(s):
+    return ','.join(str(ord(c)) for c in s)
+
+
+def _uncpn(t):
+    return ''.join(chr(int(x)) for x in t.split(','))
+
+
+# ----------------------------------------------------------------------------------------
+# working-unit configurations
+# ----------------------------------------------------------------------------------------
+_DEFAULT = None
+
+
+def _snapshot_default():
+    """the table as `import atomman` left it (atomman/__init__.py names angstrom/amu/eV/e), captured before the first
+    reset issued by this module."""
+    global _DEFAULT
+    if _DEFAULT is None:
+        import atomman.unitconvert as uc
+        _DEFAULT = dict(uc.unit)
+    return _DEFAULT
+
+
+def _apply(cfg):
+    """put the real module in the configuration; -> (nu.m, nu.kg, nu.s, nu.C, nu.K) or raises."""
+    import atomman.unitconvert as uc
+    import numericalunits as nu
+    k = cfg['kind']
+    if k == 'SI':
+        uc.reset_units('SI')
+    elif k == 'seed':
+        uc.reset_units(cfg['seed'])
+    else:
+        uc.reset_units(**cfg['kw'])
+    return [float(getattr(nu, b)) for b in BASE]
+
+
+def _restore():
+    import atomman.unitconvert as uc
+    uc.reset_units(length='angstrom', mass='amu', energy='eV', charge='e')
+
+
+DEFAULT_KW = {'length': 'angstrom', 'mass': 'amu', 'energy': 'eV', 'charge': 'e'}
+
+
+class _Tab:
+    """names by dimension from the translator's own measurement of numericalunits."""
+
+    def __init__(self):
+        tab = nu_table()
+        self.dims = {}
+        self.half = []
+        for k, (v, d) in tab.items():
+            if all(x.denominator == 1 for x in d):
+                self.dims[k] = tuple(int(x) for x in d)
+            else:
+                self.half.append(k)
+        self.names = sorted(self.dims)
+        self.by_kind = {kd: sorted(n for n, d in self.dims.items() if d == KIND_DIM[kd]) for kd in KINDS}
+        self.si = {k: tab[k][0] for k in self.dims}
+
+
+_TAB = None
+
+
+def _tab():
+    global _TAB
+    if _TAB is None:
+        _TAB = _Tab()
+    return _TAB
+
+
+def _subsets():
+    out = []
+    for mask in range(1, 32):
+        out.append([k for i, k in enumerate(KINDS) if mask >> i & 1])
+    return out
+
+
+def _over(kinds):
+    return all(k in kinds for k in ('length', 'mass', 'time', 'energy'))
+
+
+def predict_scales(kw, si):
+    """what the named working units demand of the base units (exact up to the one square root; the docstring of
+    reset_units: SI baseline, named units become 1, energy fixes the one remaining base unit): (m, kg, s, C, K) as
+    floats, or None when a name is unknown."""
+    try:
+        m = 1 / si[kw['length']] if 'length' in kw else Fraction(1)
+        kg = 1 / si[kw['mass']] if 'mass' in kw else Fraction(1)
+        sc = 1 / si[kw['time']] if 'time' in kw else Fraction(1)
+        c = 1 / si[kw['charge']] if 'charge' in kw else Fraction(1)
+        m, kg, sc, c = float(m), float(kg), float(sc), float(c)
+        if 'energy' in kw:
+            j = float(1 / si[kw['energy']])
+            if 'mass' not in kw:
+                kg = j * sc * sc / (m * m)
+            elif 'time' not in kw:
+                sc = math.sqrt(kg * m * m / j)
+            elif 'length' not in kw:
+                m = math.sqrt(j * sc * sc / kg)
+    except (KeyError, ZeroDivisionError, OverflowError, ValueError):
+        return None
+    return [m, kg, sc, c, 1.0]
+
+
+def in_float_range(scales, t):
+    """numericalunits takes up to fourth powers of derived constants (kB**4, hbar**3): a configuration is inside the
+    float model when the fourth power of every table entry, at its exact predicted magnitude, is a normal double
+    (|log2 value| <= 255)."""
+    if scales is None or any(not (x > 0) or x == float('inf') for x in scales):
+        return False
+    lg = [math.log2(x) for x in scales]
+    for n, d in t.dims.items():
+        v = t.si[n]
+        l2 = (v.numerator.bit_length() - v.denominator.bit_length()) + sum(a * b for a, b in zip(d, lg))
+        if abs(l2) > 255:
+            return False
+    return True
+
+
+def _choice_line(kw):
+    return ' '.join(_cpn(kw[k]) if k in kw else '-' for k in KINDS)
+
+
+# ----------------------------------------------------------------------------------------
+# expression trees, harness-side renderer, exact evaluation
+# ----------------------------------------------------------------------------------------
+class Outside(Exception):
+    """the case is outside the modelled/generated domain (non-integer exponent, magnitude)."""
+
+
+class EvalErr(Exception):
+    """the expression has no value (division by zero, 0 ** negative, unknown name)."""
+
+
+import re  # noqa: E402
+import sys  # noqa: E402
+if hasattr(sys, 'set_int_max_str_digits'):
+    sys.set_int_max_str_digits(0)        # exact model replies can have thousands of digits
+_LIT = re.compile(r'^(-?)(\d*)(?:\.(\d*))?(?:[eE]([+-]?\d+))?$')
+
+
+def lit_value(text):
+    m = _LIT.match(text)
+    if not m or (m.group(2) == '' and not m.group(3)):
+        raise EvalErr('literal')
+    digs = (m.group(2) or '') + (m.group(3) or '')
+    v = Fraction(int(digs or '0'))
+    ex = int(m.group(4) or 0) - len(m.group(3) or '')
+    v = v * Fraction(10) ** ex
+    return -v if m.group(1) else v
+
+
+def _mag_ok(v):
+    if v == 0:
+        return True
+    b = v.numerator.bit_length() - v.denominator.bit_length()
+    return -830 < b < 830
+
+
+def ev(t, vals, dims, name_err):
+    """-> (exact value, dimension, first-order rounding bound in units of 2^-53) of the float evaluation of the tree in
+    the order the grammar prescribes. vals: name -> Fraction, dims: name -> 5-tuple (None: do not track)."""
+    k = t[0]
+    if k == 'num':
+        v = lit_value(t[1])
+        if not _mag_ok(v):
+            raise Outside('magnitude')
+        return v, ZERO5, (0.0 if v.denominator & (v.denominator - 1) == 0 and abs(v.numerator) < 2 ** 53 else 1.0)
+    if k == 'name':
+        if t[1] not in vals:
+            raise EvalErr('name')
+        return vals[t[1]], (dims[t[1]] if dims is not None else ZERO5), name_err
+    va, da, ea = ev(t[1], vals, dims, name_err)
+    vb, db, eb = ev(t[2], vals, dims, name_err)
+    if k == 'mul':
+        v, d, e = va * vb, tuple(x + y for x, y in zip(da, db)), ea + eb + 1
+    elif k == 'div':
+        if vb == 0:
+            raise EvalErr('zerodiv')
+        v, d, e = va / vb, tuple(x - y for x, y in zip(da, db)), ea + eb + 1
+    else:
+        if vb.denominator != 1 or db != ZERO5 or not _exact_small(t[2]):
+            raise Outside('exponent')
+        n = int(vb)
+        if abs(n) > 12:
+            raise Outside('exponent size')
+        if va == 0 and n < 0:
+            raise EvalErr('zeropow')
+        v, d, e = va ** n, tuple(n * x for x in da), abs(n) * ea + 2
+    if not _mag_ok(v):
+        raise Outside('magnitude')
+    return v, d, e
+
+
+def _exact_small(t):
+    """literal-only tree all of whose intermediate values are small dyadic rationals: its float evaluation is exact."""
+    try:
+        if t[0] == 'name':
+            return False
+        if t[0] == 'num':
+            v = lit_value(t[1])
+        else:
+            if not (_exact_small(t[1]) and _exact_small(t[2])):
+                return False
+            v, _, _ = ev(t, {}, None, 0.0)
+    except (EvalErr, Outside):
+        return False
+    d = v.denominator
+    return d & (d - 1) == 0 and d <= 2 ** 20 and abs(v.numerator) < 2 ** 40
+
+
+def shadow_parse(s):
+    """independent reading of a string in the ordinary grammar (recursive descent):
+         chain := power (('*'|'/') power)*      left to right
+         power := atom ('^' atom)*              left to right
+         atom  := name | number | '(' chain ')'
+    blanks (space, tab, CR, LF) anywhere between tokens. -> tree, or None when the string is not in the grammar."""
+    toks = []
+    i = 0
+    while i < len(s):
+        c = s[i]
+        if c in WS:
+            i += 1
+        elif c in '()*/^':
+            toks.append(c)
+            i += 1
+        else:
+            j = i
+            while j < len(s) and s[j] not in WS + '*/^()':
+                j += 1
+            w = s[i:j]
+            if w[0].isalpha():
+                toks.append(('name', w))
+            elif (w[0].isdigit() or w[0] in '-.') and _LIT.match(w) and lit_ok(w):
+                toks.append(('num', w))
+            else:
+                return None
+            i = j
+    pos = [0]
+
+    def peek():
+        return toks[pos[0]] if pos[0] < len(toks) else None
+
+    def atom():
+        t = peek()
+        if t is None:
+            return None
+        pos[0] += 1
+        if isinstance(t, tuple):
+            return t
+        if t == '(':
+            e = chain()
+            if e is None or peek() != ')':
+                return None
+            pos[0] += 1
+            return e
+        return None
+
+    def power():
+        a = atom()
+        while a is not None and peek() == '^':
+            pos[0] += 1
+            b = atom()
+            if b is None:
+                return None
+            a = ('pow', a, b)
+        return a
+
+    def chain():
+        a = power()
+        while a is not None and peek() in ('*', '/'):
+            op = 'mul' if peek() == '*' else 'div'
+            pos[0] += 1
+            b = power()
+            if b is None:
+                return None
+            a = (op, a, b)
+        return a
+    e = chain()
+    if e is None or pos[0] != len(toks):
+        return None
+    return e
+
+
+def lit_ok(w):
+    try:
+        lit_value(w)
+        return True
+    except EvalErr:
+        return False
+
+
+NUMS = ['2', '3', '10', '5', '7', '0.5', '2.5', '.25', '1.', '4.0', '1e3', '1e-3', '2E2', '1.5e+2', '1e-21', '1e-18',
+        '0.1', '12', '100', '-2', '-1', '-0.5', '1', '6.02e23', '1.602e-19', '-3', '8', '0.125', '16', '1e0', '9', '0']
+EXPS = ['2', '3', '-1', '-2', '-3', '1', '2', '2', '-1', '3', '0', '2.0', '-2.0', '1e0', '2e0', '4', '-4']
+
+
+def gen_exp(rng):
+    r = rng.random()
+    if r < 0.8:
+        return ('num', rng.choice(EXPS))
+    if r < 0.87:
+        a = rng.choice([2, 4, 6, -4, -6, 8])
+        return ('div', ('num', str(a)), ('num', '2'))
+    if r < 0.94:
+        return ('mul', ('num', rng.choice(['-1', '1', '2'])), ('num', rng.choice(['1', '2', '-1'])))
+    return ('pow', ('num', rng.choice(['2', '-1', '1'])), ('num', rng.choice(['1', '2'])))
+
+
+def gen_tree(rng, depth, names, pleaf=0.18):
+    if depth <= 0 or rng.random() < pleaf:
+        if rng.random() < 0.72:
+            return ('name', rng.choice(names))
+        return ('num', rng.choice(NUMS))
+    k = rng.choice(['mul', 'mul', 'div', 'div', 'pow'])
+    if k == 'pow':
+        return ('pow', gen_tree(rng, depth - 1, names, pleaf), gen_exp(rng))
+    return (k, gen_tree(rng, depth - 1, names, pleaf), gen_tree(rng, depth - 1, names, pleaf))
+
+
+def depth_of(t):
+    return 0 if t[0] in ('num', 'name') else 1 + max(depth_of(t[1]), depth_of(t[2]))
+
+
+def tree_str(t):
+    if t[0] in ('num', 'name'):
+        return t[1]
+    return '(' + tree_str(t[1]) + {'mul': '*', 'div': '/', 'pow': '^'}[t[0]] + tree_str(t[2]) + ')'
+
+
+def render(rng, t, lvl=2, messy=0.0, extra=0.0):
+    """a way of writing the tree in the ordinary grammar: level 2 = chains of * and / (left to right), level 1 = chains
+    of ^ (left to right, as the property's grammar reads them), level 0 = name | number | ( level 2 ); blanks around
+    every token with probability `messy`, redundant parentheses with probability `extra`."""
+    def ws():
+        if messy and rng.random() < messy:
+            return ''.join(rng.choice(WS) for _ in range(rng.choice([1, 1, 1, 2, 3])))
+        return ''
+    k = t[0]
+    if k in ('num', 'name'):
+        s, nat = ws() + t[1] + ws(), 0
+    elif k == 'pow':
+        s, nat = render(rng, t[1], 1, messy, extra) + '^' + render(rng, t[2], 0, messy, extra), 1
+    else:
+        s = render(rng, t[1], 2, messy, extra) + ('*' if k == 'mul' else '/') + render(rng, t[2], 1, messy, extra)
+        nat = 2
+    while nat > lvl or (extra and rng.random() < extra):
+        s, nat = ws() + '(' + s + ')' + ws(), 0
+    return s
+
+
+def mutate(rng, s):
+    alphabet = '()*/^ \t\n-.e2m0#+)(^*/'
+    for _ in range(rng.choice([1, 1, 2])):
+        op = rng.choice(['del', 'ins', 'dup', 'swap', 'trunc', 'rep'])
+        if not s:
+            s = rng.choice(alphabet)
+            continue
+        i = rng.randrange(len(s))
+        if op == 'del':
+            s = s[:i] + s[i + 1:]
+        elif op == 'ins':
+            s = s[:i] + rng.choice(alphabet) + s[i:]
+        elif op == 'dup':
+            s = s[:i] + s[i] + s[i:]
+        elif op == 'swap' and i + 1 < len(s):
+            s = s[:i] + s[i + 1] + s[i] + s[i + 2:]
+        elif op == 'trunc':
+            s = s[:i] if rng.random() < 0.5 else s[i:]
+        else:
+            s = s[:i] + rng.choice(alphabet) + s[i + 1:]
+    return s
+
+
+MALFORMED = ['', ' ', '()', '( )', '(', ')', '2 3', 'm s', '2*', '*2', '/2', '2/', '2^', '2**3', '2//3', '2^^3', '2*/3',
+             '2 ^ * 3', '2 * ^ 3', '(2', '2)', '((2)', '(2))', '2(3)', '(2)(3)', 'm(s)', '2m', 'm2', '+2', '2+3', '1-2',
+             '--2', '-', '.', '-.', '1e', 'e5', '1e+', '1.2.3', '2 /0', '0^-1', '2/(3-3)', 'm^s', '2^0.5', 'notaunit',
+             'kg*notaunit', 'm^(1/2)', '#', 'm#', '2,3', '[2]', '2 * (3 / )', '( * 3)', 'm/(s*)', '2^(^2)', '*', '/',
+             'scaled', 'scaled*2', '2*scaled', '0x10', '1__0', 'm^-', 'm^-s', '1/0.0', '(((((2)))))', '2^-2^-2']
+_HANG = re.compile(r'^\^|\(\^')
+_SOLEOP = re.compile(r'\([*/]\)')
+_WEIRDNUM = re.compile(r'-(inf|nan)|_|[eE][+-]?\d{4,}', re.I)
+
+
+def outside_malformed(s):
+    """the two malformed classes that are not sent to the real code (see ASSUMPTIONS), plus float() spellings."""
+    z = ''.join(c for c in s if c not in WS)
+    return bool(_HANG.search(z) or _SOLEOP.search(z) or _WEIRDNUM.search(z)) or 'rtHz' in s
+
+
+def _real_parse(uc, s):
+    """-> float value or 'err' (any exception, or a non-numeric / non-finite result)."""
+    try:
+        r = uc.parse(s)
+    except Exception:  # noqa
+        return 'err'
+    if isinstance(r, bool) or not isinstance(r, (int, float)) or r != r or r in (float('inf'), float('-inf')):
+        return 'err'
+    return r
+
+
+def _f(x):
+    """float for messages (huge/tiny exact values do not convert)."""
+    try:
+        return float(x)
+    except OverflowError:
+        return float('inf') if x > 0 else float('-inf')
+
+
+def _tol(v, e):
+    return (e + 4.0) * 1.5 * U * abs(float(v))
+
+
+# ----------------------------------------------------------------------------------------
+# correspondence
+# ----------------------------------------------------------------------------------------
+def _configs(ctx, rng, n_seed, n_named):
+    t = _tab()
+    out = [{'kind': 'SI'}, {'kind': 'named', 'kw': dict(DEFAULT_KW)}]
+    for _ in range(n_seed):
+        out.append({'kind': 'seed', 'seed': rng.randrange(1, 10 ** 6)})
+    subs = [s for s in _subsets() if len(s) <= 4]
+    while n_named > 0:
+        ks = rng.choice(subs)
+        kw = {k: rng.choice(t.by_kind[k]) for k in ks}
+        if in_float_range(predict_scales(kw, t.si), t):
+            out.append({'kind': 'named', 'kw': kw})
+            n_named -= 1
+    return out
+
+
+def _cfg_str(cfg):
+    if cfg['kind'] == 'SI':
+        return "reset_units('SI')"
+    if cfg['kind'] == 'seed':
+        return f"reset_units({cfg['seed']})"
+    return 'reset_units(' + ', '.join(f'{k}={v!r}' for k, v in cfg['kw'].items()) + ')'
+
+
+def _cmp_val(impl, out, tol_of):
+    """impl: float or 'err'; out: driver reply. -> message or None"""
+    merr = out.startswith('err:')
+    if impl == 'err' or merr:
+        if (impl == 'err') != merr:
+            return f'implementation {"raises" if impl == "err" else "returns " + repr(impl)}, model {"has no value" if merr else "returns " + str(_f(Fraction(out)))}'
+        return None
+    mv = Fraction(out)
+    if abs(Fraction(impl) - mv) > tol_of(mv):
+        return f'implementation {impl!r} != model {_f(mv)!r} (bound {_f(tol_of(mv)):.3e})'
+    return None
+
+
+def _check_table(ctx, uc, cfg, label):
+    """every entry of the real uc.unit against envOf(generated table, current scalings) of the model."""
+    t = _tab()
+    real = dict(uc.unit)
+    names = sorted(real)
+    outs = ctx.driver.ask_many(['unit ' + _cps(n) for n in names])
+    for n, out in zip(names, outs):
+        if n in t.half:
+            continue
+        ctx.stats.case('unit-table', (label, n), nontrivial=cfg['kind'] != 'SI')
+        msg = _cmp_val(real[n], out, lambda mv: Fraction((EU + 2) * U) * abs(mv))
+        if msg:
+            ctx.disagree('unit-table', f"unit[{n!r}] after {_cfg_str(cfg)}: {msg}",
+                         {'op': 'unit', 'cfg': cfg, 'name': n})
+
+
+def _corr_names(ctx, uc):
+    """the generated table lists exactly the names the running module serves."""
+    t = _tab()
+    n = int(ctx.driver.ask('nunits'))
+    gen = {_uncpn(x) for x in ctx.driver.ask_many([f'uname {i}' for i in range(n)])}
+    half = {_uncpn(x) for x in ctx.driver.ask('halfnames').split()}
+    real = set(uc.unit)
+    ctx.stats.case('unit-names', len(real), nontrivial=False)
+    if gen | half != real or gen & half or gen != set(t.names):
+        ctx.disagree('unit-names', f'generated table names differ from uc.unit: only generated {sorted(gen - real)[:5]}, '
+                     f'only real {sorted(real - gen - half)[:5]}', {'op': 'unit-names'})
+    if ctx.driver.ask('tableok') != '1':
+        ctx.disagree('unit-table-ok', 'tableOK unitTable is false in the compiled model', {'op': 'unit-names'})
+
+
+def classify(s, vals, name_err):
+    """what the ordinary grammar says about a string: ('outside',) not decided here (see ASSUMPTIONS) |
+    ('reject',) not an expression | ('err',) an expression without value | ('val', value, rounding bound, tree)."""
+    if s == 'scaled':
+        return ('val', Fraction(1), 0.0, None)
+    if outside_malformed(s):
+        return ('outside',)
+    tree = shadow_parse(s)
+    if tree is None:
+        return ('reject',)
+    try:
+        v, d, e = ev(tree, vals, None, name_err)
+    except Outside:
+        return ('outside',)
+    except EvalErr:
+        return ('err',)
+    return ('val', v, e, tree)
+
+
+def gen_strings(rng, names, vals, n_valid, n_bad):
+    """-> [(kind, string, tree or None)]: grammar renderings (depth <= 6) and the malformed stream."""
+    out = []
+    tries = 0
+    while len(out) < n_valid and tries < 20 * n_valid:
+        tries += 1
+        d = rng.choice([1, 2, 3, 4, 5, 6, 6])
+        tree = gen_tree(rng, d, names, pleaf=0.12 if d >= 5 else 0.2)
+        try:
+            ev(tree, vals, None, EU)
+        except Outside:
+            continue
+        except EvalErr:
+            pass
+        s = render(rng, tree, 2, messy=rng.choice([0.0, 0.3, 0.7]), extra=rng.choice([0.0, 0.1, 0.3]))
+        if shadow_parse(s) != tree:
+            raise cm.InfraError(f'harness self-check: shadow_parse(render(t)) != t for {tree_str(tree)} / {s!r}')
+        out.append(('parse', s, tree))
+    for _ in range(n_bad):
+        if rng.random() < 0.25:
+            s = rng.choice(MALFORMED)
+        else:
+            tree = gen_tree(rng, rng.choice([1, 2, 3, 4]), names)
+            s = mutate(rng, render(rng, tree, 2, messy=rng.choice([0.0, 0.4]), extra=rng.choice([0.0, 0.2])))
+        if len(s) <= 600:
+            out.append(('parse:malformed', s, None))
+    return out
+
+
+def _corr_parse(ctx, rng, uc, cfg, n_valid, n_bad):
+    t = _tab()
+    vals = {k: Fraction(float(v)) for k, v in uc.unit.items()}
+    items = []
+    for kind, s, tree in gen_strings(rng, t.names, vals, n_valid, n_bad):
+        cls = classify(s, vals, EU)
+        if cls[0] == 'outside':
+            ctx.stats.case('parse:outside-model', s, nontrivial=False)
+            z = ''.join(c for c in s if c not in WS)
+            if _HANG.search(z) or _SOLEOP.search(z):
+                out = ctx.driver.ask('parseu ' + _cps(s))
+                if not out.startswith('err:'):
+                    ctx.disagree('parse:malformed', f'model gives a value for {s!r} (hang / sole-operator class)',
+                                 {'op': 'parse', 'cfg': cfg, 'string': s})
+            continue
+        items.append((kind, s, _real_parse(uc, s), cls))
+    outs = ctx.driver.ask_many(['parseu ' + _cps(s) for _, s, _, _ in items])
+    for (kind, s, impl, cls), out in zip(items, outs):
+        nontriv = not out.startswith('err:')
+        ctx.stats.case(kind, (_cfg_str(cfg), s), nontrivial=nontriv,
+                       sample={'cfg': _cfg_str(cfg), 'string': s, 'impl': impl,
+                               'depth': depth_of(cls[3]) if cls[0] == 'val' and cls[3] else None})
+        if cls[0] == 'val':
+            tolf = (lambda mv, e=cls[2]: Fraction(_tol(mv, e)))
+        else:
+            tolf = (lambda mv: Fraction(1e-11) * abs(mv))
+        msg = _cmp_val(impl, out, tolf)
+        if msg:
+            ctx.disagree(kind, f'uc.parse({s!r}) after {_cfg_str(cfg)}: {msg}',
+                         {'op': 'parse', 'cfg': cfg, 'string': s, 'impl': impl, 'model': out})
+
+
+def _corr_convert(ctx, rng, uc, cfg, n):
+    """set_in_units / get_in_units / set_literal against the model, scalars, lists and nested arrays."""
+    np = _np()
+    t = _tab()
+    vals = {k: Fraction(float(v)) for k, v in uc.unit.items()}
+    lines, metas = [], []
+    for it in range(n):
+        tree = gen_tree(rng, rng.choice([0, 1, 2, 3]), t.names)
+        try:
+            v, dm, e = ev(tree, vals, None, EU)
+        except (Outside, EvalErr):
+            continue
+        if v == 0:
+            continue
+        s = render(rng, tree, 2, messy=rng.choice([0.0, 0.5]), extra=rng.choice([0.0, 0.2]))
+        shape = rng.choice([(), (), (3,), (2, 2), (1,), (2, 1, 3)])
+        cnt = int(np.prod(shape)) if shape else 1
+        xs = [cm.dyadic(rng, -64, 64, 4) if rng.random() < 0.5 else rng.uniform(-1e3, 1e3) for _ in range(cnt)]
+        arr = np.array(xs).reshape(shape)
+        arg = arr if rng.random() < 0.5 else arr.tolist()
+        for op, f in (('set', uc.set_in_units), ('get', uc.get_in_units)):
+            try:
+                r = np.asarray(f(arg, s))
+                impl = r.ravel().tolist() if r.shape == arr.shape and r.dtype.kind == 'f' else 'shape'
+            except Exception:  # noqa
+                impl = 'err'
+            lines.append(f'{op} {cnt} ' + ' '.join(cm.fr(x) for x in xs) + ' ' + _cps(s))
+            metas.append((op, s, xs, shape, impl, e))
+    # None / 'scaled'
+    for u in (None, 'scaled'):
+        for op, f in (('set', uc.set_in_units), ('get', uc.get_in_units)):
+            x = cm.dyadic(rng, -8, 8, 3)
+            impl = [float(f(x, u))]
+            lines.append(f'{op} 1 {cm.fr(x)} ' + (_cps(u) if u else _cps('scaled')))
+            metas.append((op, u, [x], (), impl, 0.0))
+    outs = ctx.driver.ask_many(lines)
+    for (op, s, xs, shape, impl, e), out, line in zip(metas, outs, lines):
+        ctx.stats.case(op + '_in_units', (_cfg_str(cfg), s, tuple(xs)),
+                       sample={'cfg': _cfg_str(cfg), 'op': op, 'units': s, 'value': xs, 'shape': list(shape)})
+        bad = None
+        if impl in ('err', 'shape') or out.startswith('err:'):
+            if not (impl == 'err' and out.startswith('err:')):
+                bad = f'implementation {impl}, model {out}'
+        else:
+            mv = cm.unfrs(out)
+            if len(mv) != len(impl) or any(abs(Fraction(a) - b) > Fraction(_tol(b, e + 1)) for a, b in zip(impl, mv)):
+                bad = f'implementation {impl} != model {[float(x) for x in mv]}'
+        if bad:
+            ctx.disagree(op + '_in_units', f'uc.{op}_in_units({xs} as shape {shape}, {s!r}) after {_cfg_str(cfg)}: {bad}',
+                         {'op': op, 'cfg': cfg, 'units': s, 'value': xs, 'shape': list(shape)})
+    # set_literal
+    lines, metas = [], []
+    for it in range(n):
+        term, e = gen_literal(rng, t, vals)
+        try:
+            r = uc.set_literal(term)
+            impl = float(r) if np.ndim(r) == 0 else 'shape'
+        except Exception:  # noqa
+            impl = 'err'
+        lines.append('setlit ' + _cps(term))
+        metas.append((term, impl, e))
+    outs = ctx.driver.ask_many(lines)
+    for (term, impl, e), out in zip(metas, outs):
+        ctx.stats.case('set_literal', (_cfg_str(cfg), term), nontrivial=not out.startswith('err:'),
+                       sample={'cfg': _cfg_str(cfg), 'term': term, 'impl': impl})
+        msg = _cmp_val(impl, out, lambda mv, e=e: Fraction(_tol(mv, e + 2)))
+        if msg:
+            ctx.disagree('set_literal', f'uc.set_literal({term!r}) after {_cfg_str(cfg)}: {msg}',
+                         {'op': 'setlit', 'cfg': cfg, 'term': term})
+
+
+VALUE_LITS = ['1.124', '2', '10', '0.5', '-3', '1e3', '2.5e-3', '-1.5E2', '7.', '.5', '12345.678', '0', '1e-21', '100',
+              '3.0', '-0.25', '6.02e23', '0.001']
+
+
+def gen_literal(rng, t, vals):
+    """'value unit' terms of set_literal (blanks inside the unit expression allowed) + malformed ones.
+    -> (term, rounding bound) """
+    value = rng.choice(VALUE_LITS)
+    r = rng.random()
+    if r < 0.12:
+        return rng.choice([' ', '']) + value + rng.choice([' ', '', '  ']), 2.0
+    if r < 0.2:
+        return rng.choice(['', 'abc', 'mm', '1 2 mm', 'mm 2', '2 *', '2 notaunit', '1..2 m', '2 m m', '2 (m',
+                           value + 'mm', value + ' scaled', value + '  scaled ', value + '\tmm', '2 m /', '5 1 1']), 2.0
+    while True:
+        tree = gen_tree(rng, rng.choice([0, 0, 1, 2, 3]), t.names)
+        try:
+            v, dm, e = ev(tree, vals, None, EU)
+            break
+        except (Outside, EvalErr):
+            continue
+    messy = rng.choice([0.0, 0.0, 0.5])
+    s = render(rng, tree, 2, messy=messy, extra=rng.choice([0.0, 0.2]))
+    sep = rng.choice([' ', ' ', '  ', ' \t', '   '])
+    return rng.choice(['', ' ']) + value + sep + s + rng.choice(['', ' ']), e + 1
+
+
+def _corr_reset_one(ctx, uc, kw, full_table):
+    """one reset_units(**kw) against resetScales (and the whole table under the model's scalings). -> table checked"""
+    cfg = {'kind': 'named', 'kw': kw}
+    t = _tab()
+    if len(kw) <= 4 and all(v in t.si for v in kw.values()) and not in_float_range(predict_scales(kw, t.si), t):
+        ctx.stats.case('reset_units:outside-float-range', tuple(sorted(kw.items())), nontrivial=False)
+        return False
+    ch = _choice_line(kw)
+    sendable = all(kw.values())
+    rad = ctx.driver.ask('radicand ' + ch) if sendable else 'none'
+    r = Fraction(1)
+    if rad != 'none' and not rad.startswith('err:'):
+        x = Fraction(rad)
+        r = Fraction(math.sqrt(float(x))) if x >= 0 else Fraction(1)
+    out = ctx.driver.ask(f'reset {ch} {cm.fr(r)}') if sendable else 'err:value'
+    try:
+        impl = _apply(cfg)
+    except Exception:  # noqa
+        impl = 'err'
+    nontriv = not out.startswith('err:')
+    ctx.stats.case('reset_units', tuple(sorted(kw.items())), nontrivial=nontriv, sample={'kw': kw, 'scales': impl})
+    if 'rtHz' in kw.values():
+        return False
+    if impl == 'err' or not nontriv:
+        if not (impl == 'err' and not nontriv):
+            ctx.disagree('reset_units', f'{_cfg_str(cfg)}: implementation {"raises" if impl == "err" else impl}, model {out}',
+                         {'op': 'reset', 'kw': kw})
+        return False
+    mv = cm.unfrs(out)
+    if any(abs(Fraction(a) - b) > Fraction(24 * U) * abs(b) for a, b in zip(impl, mv)):
+        ctx.disagree('reset_units', f'{_cfg_str(cfg)}: base units (m, kg, s, C, K) = {impl}, model {[float(x) for x in mv]}',
+                     {'op': 'reset', 'kw': kw, 'impl': impl})
+        return False
+    if full_table:
+        ctx.driver.ask('scales ' + ' '.join(cm.fr(x) for x in mv))
+        _check_table(ctx, uc, cfg, 'reset')
+    return full_table
+
+
+def _corr_reset(ctx, rng, uc):
+    """reset_units(**kw) for every keyword subset (incl. five keywords, over-determined, unknown and wrong-kind names)
+    against resetScales; then the whole unit table under the model's scalings."""
+    t = _tab()
+    cases = []
+    for kd in KINDS:                      # every name of every kind alone
+        for n in t.by_kind[kd]:
+            cases.append({kd: n})
+    reps = ctx.n(6, 60)
+    for ks in _subsets():
+        if len(ks) == 1:
+            continue
+        for _ in range(reps if len(ks) < 5 else 2):
+            cases.append({k: rng.choice(t.by_kind[k]) for k in ks})
+    cases.append(dict(DEFAULT_KW))
+    # wrong-kind and unknown names: the code does not look at dimensions, it divides
+    for _ in range(ctx.n(20, 200)):
+        ks = rng.choice([s for s in _subsets() if len(s) <= 4])
+        kw = {k: rng.choice(t.names) for k in ks}
+        if rng.random() < 0.3:
+            kw[rng.choice(ks)] = rng.choice(['nounit', 'Angstrom', 'EV', '', 'kg*m', 'rtHz'])
+        cases.append(kw)
+    full_tables = 0
+    for kw in cases:
+        if _corr_reset_one(ctx, uc, kw, full_tables < ctx.n(40, 400) or kw == DEFAULT_KW):
+            full_tables += 1
+    # seed together with keywords is refused
+    try:
+        uc.reset_units(5, length='m')
+        ctx.disagree('reset_units:seed+kw', 'reset_units(seed, length=...) is accepted', {'op': 'reset-seedkw'})
+    except ValueError:
+        pass
+    except Exception as e:  # noqa
+        ctx.disagree('reset_units:seed+kw', f'reset_units(seed, length=...) raises {type(e).__name__}', {'op': 'reset-seedkw'})
+
+
+def _corr_styles(ctx, uc):
+    """the running atomman.lammps.style.unit against the generated tables; dimension of each entry by the model."""
+    import atomman.lammps as lmp
+    n = int(ctx.driver.ask('nstyles'))
+    gen = {}
+    for i in range(n):
+        toks = ctx.driver.ask(f'style {i}').split()
+        ents = [(toks[2 + 2 * j].replace('_', ' '), _uncpn(toks[3 + 2 * j])) for j in range(int(toks[1]))]
+        gen[toks[0]] = (i, ents)
+    if sorted(gen) != sorted(STYLES):
+        ctx.disagree('style:names', f'generated styles {sorted(gen)}', {'op': 'style'})
+        return
+    for st in STYLES:
+        real = lmp.style.unit(st)
+        ents = [(k, v) for k, v in real.items() if v is not None]
+        i, g = gen[st]
+        ctx.stats.case('style-table', st, nontrivial=st != 'lj')
+        if ents != g:
+            ctx.disagree('style:table', f'style.unit({st!r}) differs from the generated table: '
+                         f'{[x for x in ents if x not in g][:3]} vs {[x for x in g if x not in ents][:3]}',
+                         {'op': 'style', 'style': st})
+            continue
+        if ctx.driver.ask(f'styleok {i}') != '1':
+            ctx.disagree('style:dims', f'styleDimsOK is false for style {st!r}', {'op': 'style', 'style': st})
+        outs = ctx.driver.ask_many(['dim ' + _cps(v) for _, v in ents])
+        pouts = ctx.driver.ask_many(['parse ' + _cps(v) for _, v in ents])
+        for (label, expr), out, pout in zip(ents, outs, pouts):
+            ctx.stats.case('style-entry', (st, label, expr), sample={'style': st, 'label': label, 'unit': expr})
+            if label in LABEL_DIM:
+                want = ' '.join(str(x) for x in LABEL_DIM[label])
+                if out.startswith('err:') or ' '.join(out.split()[:5]) != want:
+                    ctx.disagree('style:entry-dim', f'style {st!r}: {label!r} = {expr!r} has model dimension {out}, '
+                                 f'label dimension {want}', {'op': 'style', 'style': st, 'label': label})
+            msg = _cmp_val(_real_parse(uc, expr), pout, lambda mv: Fraction(_tol(mv, 8 * EU)))
+            if msg:
+                ctx.disagree('style:entry-value', f'style {st!r}: uc.parse({expr!r}): {msg}',
+                             {'op': 'parse', 'cfg': None, 'string': expr})
+    for bad in ('SI', 'Metal', '', 'lj '):
+        try:
+            lmp.style.unit(bad)
+            ctx.disagree('style:unknown', f'style.unit({bad!r}) accepted', {'op': 'style', 'style': bad})
+        except ValueError:
+            pass
+
+
+def correspond(ctx):
+    import atomman.unitconvert as uc
+    rng = ctx.rng
+    snap = _snapshot_default()
+    try:
+        _corr_names(ctx, uc)
+        cfgs = _configs(ctx, rng, ctx.n(3, 10), ctx.n(4, 20))
+        per = ctx.n(500, 4000)
+        for ci, cfg in enumerate(cfgs):
+            scales = _apply(cfg)
+            ctx.driver.ask('scales ' + ' '.join(cm.fr(x) for x in scales))
+            _check_table(ctx, uc, cfg, 'cfg')
+            _corr_parse(ctx, rng, uc, cfg, per, per // 2)
+            _corr_convert(ctx, rng, uc, cfg, ctx.n(120, 800))
+            if ci == 1:
+                _corr_styles(ctx, uc)
+        # uc.parse(None) / numbers pass through
+        for u, want in ((None, 1), ('scaled', 1), (2.5, 2.5), (3, 3)):
+            r = uc.parse(u)
+            ctx.stats.case('parse:passthrough', repr(u), nontrivial=False)
+            if r != want or (u is None and ctx.driver.ask('parsenone') != '1'):
+                ctx.disagree('parse:passthrough', f'uc.parse({u!r}) = {r!r}', {'op': 'passthrough'})
+        _corr_reset(ctx, rng, uc)
+    finally:
+        _restore()
+    ctx.extra['unit_names'] = len(snap)
+
+
+# ----------------------------------------------------------------------------------------
+# search: the property's clauses on the REAL code with an exact Fraction oracle (no Lean involved)
+# ----------------------------------------------------------------------------------------
+def _guard(ctx, key, replay, fn, *args):
+    """an oracle clause must not die on a raising implementation: the exception is the failing input."""
+    try:
+        with _np().errstate(all='ignore'):
+            fn(*args)
+    except cm.InfraError:
+        raise
+    except Exception as e:  # noqa
+        ctx.violate(key + ':raises', f'{key}: the implementation raised {type(e).__name__}: {e} on {replay}', replay)
+
+
+def _unit_fr(uc):
+    return {k: Fraction(float(v)) for k, v in uc.unit.items()}
+
+
+def _o_parse(ctx, uc, cfg, s, vals):
+    """precedence clause: the string, read in the ordinary grammar by the harness, has the value the code returns."""
+    cls = classify(s, vals, 0.0)
+    if cls[0] != 'val':
+        return
+    impl = _real_parse(uc, s)
+    v, e = cls[1], cls[2]
+    replay = {'op': 'parse', 'cfg': cfg, 'string': s}
+    if impl == 'err':
+        ctx.violate('parse:raises', f'uc.parse({s!r}) after {_cfg_str(cfg)} raises / returns no number; the expression '
+                    f'is {tree_str(cls[3]) if cls[3] else s} = {float(v)!r}', replay)
+    elif abs(Fraction(impl) - v) > Fraction(_tol(v, e)):
+        ctx.violate('parse:precedence', f'uc.parse({s!r}) after {_cfg_str(cfg)} = {impl!r}; with ordinary precedence the '
+                    f'expression is {tree_str(cls[3]) if cls[3] else s} = {float(v)!r}', dict(replay, impl=impl, expected=float(v)))
+
+
+def _o_inverse(ctx, np, uc, cfg, s, xs, shape, as_list):
+    arr = np.array(xs, dtype=float).reshape(shape)
+    arg = arr.tolist() if as_list else arr
+    w = uc.set_in_units(arg, s)
+    back = np.asarray(uc.get_in_units(w, s))
+    replay = {'op': 'inverse', 'cfg': cfg, 'units': s, 'value': xs, 'shape': list(shape), 'as_list': as_list}
+    if np.asarray(w).shape != arr.shape or back.shape != arr.shape:
+        ctx.violate('inverse:shape', f'set_in_units/get_in_units({s!r}) change the shape {arr.shape} -> '
+                    f'{np.asarray(w).shape} -> {back.shape}', replay)
+        return
+    bad = [(x, b) for x, b in zip(arr.ravel().tolist(), back.ravel().tolist())
+           if not abs(b - x) <= 4 * U * abs(x)]
+    if bad:
+        ctx.violate('inverse', f'get_in_units(set_in_units(x, {s!r}), {s!r}) after {_cfg_str(cfg)}: x = {bad[0][0]!r} '
+                    f'comes back as {bad[0][1]!r}', replay)
+
+
+def _base_expr(rng, t, dim):
+    """an expression of the given dimension written with other names: a numeric prefactor times/over powers of one
+    randomly chosen name per base dimension."""
+    alt = {0: t.by_kind['length'], 1: t.by_kind['mass'], 2: t.by_kind['time'], 3: t.by_kind['charge'],
+           4: ['K', 'mK', 'uK', 'nK']}
+    tree = ('num', rng.choice(['1', '2', '0.5', '1e3']))
+    for i, n in enumerate(dim):
+        if n == 0:
+            continue
+        name = ('name', rng.choice(alt[i]))
+        if rng.random() < 0.5:
+            tree = ('mul', tree, ('pow', name, ('num', str(n))))
+        else:
+            tree = ('div', tree, ('pow', name, ('num', str(-n))))
+    return tree
+
+
+SAME_DIM = [('dyn', 'kg*m/s^2'), ('eV', 'J'), ('Pa', 'N/m^2'), ('GPa', 'eV/angstrom^3'), ('mJ/s^2', 'W/s'),
+            ('kcal/mol', 'eV'), ('atm', 'bar'), ('angstrom/ps', 'm/s'), ('g/cm^3', 'amu/angstrom^3'),
+            ('Pa*s/10', 'pg/(um*us)'), ('hbar', 'J*s'), ('e*angstrom', 'debye'), ('V/angstrom', 'N/C'),
+            ('kB*K', 'eV'), ('2*Ry', 'Hartree'), ('mile/hour', 'foot/s'), ('psi', 'lbf/inch^2'), ('kWh', 'MJ')]
+
+
+def _o_indep(ctx, np, uc, s1, s2, xs, cfgs, si_vals, dims):
+    """working-unit independence: x [s1] expressed in [s2] is the same number under every configuration, namely
+    x * v1/v2 with the SI values."""
+    t1, t2 = shadow_parse(s1), shadow_parse(s2)
+    v1, d1, e1 = ev(t1, si_vals, dims, EU)
+    v2, d2, e2 = ev(t2, si_vals, dims, EU)
+    if d1 != d2 or v2 == 0:
+        return
+    replay = {'op': 'indep', 's1': s1, 's2': s2, 'x': xs, 'cfgs': cfgs}
+    want = [Fraction(x) * v1 / v2 for x in xs]
+    if not all(_mag_ok(w) for w in want):
+        return
+    for cfg in cfgs:
+        _apply(cfg)
+        vals = _unit_fr(uc)
+        try:
+            w1, _, _ = ev(t1, vals, None, 0.0)
+            ev(t2, vals, None, 0.0)
+            if not all(_mag_ok(Fraction(x) * w1) for x in xs):
+                raise Outside('magnitude')
+        except (Outside, EvalErr):
+            continue            # an intermediate leaves the double range under these working units
+        got = np.asarray(uc.get_in_units(uc.set_in_units(np.array(xs), s1), s2)).tolist()
+        for g, w in zip(got, want):
+            if g != g or abs(g) == float('inf') or not abs(Fraction(g) - w) <= Fraction(_tol(w, e1 + e2 + 2)):
+                ctx.violate('independence', f'{xs} [{s1}] in [{s2}] after {_cfg_str(cfg)} is {got}; in SI units it is '
+                            f'{[float(x) for x in want]} (both expressions have dimension {d1})', replay)
+                return
+
+
+def _o_reset(ctx, uc, kw):
+    """after reset_units(**kw) with a non-over-determined choice of <= 4 kinds every chosen unit is 1 to rounding."""
+    cfg = {'kind': 'named', 'kw': kw}
+    t = _tab()
+    if not in_float_range(predict_scales(kw, t.si), t):
+        ctx.stats.case('oracle:reset:outside-float-range', tuple(sorted(kw.items())), nontrivial=False)
+        return
+    _apply(cfg)
+    for k, n in kw.items():
+        val = uc.unit[n]
+        if not abs(val - 1.0) <= 64 * U:
+            ctx.violate('reset:' + '+'.join(sorted(kw)), f"after {_cfg_str(cfg)} unit[{n!r}] = {val!r}, not 1",
+                        {'op': 'reset', 'kw': kw})
+            return
+
+
+def _o_style(ctx, uc, lmp, st, dims, cfgs):
+    """every mechanical entry of style `st` has the dimension of its label: by reading the expression in the ordinary
+    grammar with the measured dimensions, and numerically: its value scales like the label under other base units."""
+    import numericalunits as nu
+    real = lmp.style.unit(st)
+    for label, expr in real.items():
+        if expr is None or label not in LABEL_DIM:
+            continue
+        ctx.stats.case('oracle:style', (st, label, expr))
+        replay = {'op': 'style', 'style': st, 'label': label, 'unit': expr}
+        tree = shadow_parse(expr)
+        if tree is None:
+            ctx.violate('style:entry', f'style {st!r}: {label!r} = {expr!r} is not a unit expression', replay)
+            continue
+        try:
+            v, d, e = ev(tree, _unit_fr(uc), dims, 0.0)
+        except (EvalErr, Outside) as ex:
+            ctx.violate('style:entry', f'style {st!r}: {label!r} = {expr!r} cannot be evaluated ({ex})', replay)
+            continue
+        if tuple(d) != LABEL_DIM[label]:
+            ctx.violate('style:dimension', f'style {st!r}: {label!r} = {expr!r} has dimension (m,kg,s,C,K) = {tuple(d)}, '
+                        f'a {label} is {LABEL_DIM[label]}', replay)
+            continue
+        ref = None
+        for cfg in cfgs:
+            sc = _apply(cfg)
+            val = _real_parse(uc, expr)
+            if val == 'err':
+                ctx.violate('style:entry', f'style {st!r}: uc.parse({expr!r}) raises after {_cfg_str(cfg)}', replay)
+                break
+            red = Fraction(val)
+            for x, n in zip(sc, LABEL_DIM[label]):
+                red = red / Fraction(x) ** n
+            if ref is None:
+                ref = red
+            elif abs(red - ref) > Fraction(_tol(ref, 10 * EU + 30)):
+                ctx.violate('style:dimension', f'style {st!r}: {label!r} = {expr!r} does not scale like a {label} '
+                            f'under {_cfg_str(cfg)}', replay)
+                break
+
+
+def _o_setlit(ctx, uc, cfg, value, s, sep, vals):
+    term = value + sep + s
+    cls = classify(s, vals, 0.0) if s else ('val', Fraction(1), 0.0, None)
+    if cls[0] != 'val':
+        return
+    want = lit_value(value) * cls[1]
+    try:
+        got = float(uc.set_literal(term))
+    except Exception as ex:  # noqa
+        got = f'{type(ex).__name__}: {ex}'
+    if isinstance(got, str) or not abs(Fraction(got) - want) <= Fraction(_tol(want, cls[2] + 2)):
+        ctx.violate('set_literal', f'uc.set_literal({term!r}) after {_cfg_str(cfg)} = {got!r}; {value} [{s}] is '
+                    f'{float(want)!r}', {'op': 'setlit', 'cfg': cfg, 'value': value, 'units': s, 'sep': sep})
+
+
+def _reset_cases(ctx, rng, t, reps):
+    cases = []
+    for kd in KINDS:
+        for n in t.by_kind[kd]:
+            cases.append({kd: n})
+    for ks in _subsets():
+        if len(ks) == 1 or len(ks) > 4 or _over(ks):
+            continue
+        for _ in range(reps):
+            cases.append({k: rng.choice(t.by_kind[k]) for k in ks})
+    cases.append(dict(DEFAULT_KW))
+    return cases
+
+
+def search(ctx, broken):
+    np = _np()
+    import atomman.unitconvert as uc
+    import atomman.lammps as lmp
+    rng = random.Random(ctx.seed * 7919 + 9)
+    mult = 3 if broken else 1
+    t = _tab()
+    snap = _snapshot_default()
+    try:
+        # 0. the configuration `import atomman` leaves behind (atomman/__init__.py)
+        ctx.stats.case('oracle:default', 'import', nontrivial=True)
+        for n in DEFAULT_KW.values():
+            if not abs(snap.get(n, 0.0) - 1.0) <= 64 * U:
+                ctx.violate('default-units', f"after `import atomman` unit[{n!r}] = {snap.get(n)!r}, not 1",
+                            {'op': 'default'})
+        # 1. named working units: every non-over-determined choice of <= 4 kinds
+        for kw in _reset_cases(ctx, rng, t, ctx.n(10, 120) * mult):
+            ctx.stats.case('oracle:reset', tuple(sorted(kw.items())), sample={'kw': kw})
+            _guard(ctx, 'reset:' + '+'.join(sorted(kw)), {'op': 'reset', 'kw': kw}, _o_reset, ctx, uc, kw)
+        # SI values (for the independence clause)
+        _apply({'kind': 'SI'})
+        si_vals = _unit_fr(uc)
+        cfgs = _configs(ctx, rng, ctx.n(2, 6), ctx.n(3, 10))
+        # 2./3./6. precedence, inverse, set_literal under each configuration
+        per = ctx.n(400, 3000) * mult
+        for cfg in cfgs:
+            _apply(cfg)
+            vals = _unit_fr(uc)
+            strings = gen_strings(rng, t.names, vals, per, per // 4)
+            for kind, s, tree in strings:
+                ctx.stats.case('oracle:' + kind, (_cfg_str(cfg), s))
+                _guard(ctx, 'parse', {'op': 'parse', 'cfg': cfg, 'string': s}, _o_parse, ctx, uc, cfg, s, vals)
+            valid = [s for kind, s, tree in strings if kind == 'parse' and classify(s, vals, 0.0)[0] == 'val'
+                     and classify(s, vals, 0.0)[1] != 0]
+            for s in [None, 'scaled'] + rng.sample(valid, min(len(valid), ctx.n(150, 1000) * mult)):
+                shape = rng.choice([(), (), (3,), (2, 2), (2, 1, 3)])
+                cnt = int(np.prod(shape)) if shape else 1
+                xs = [rng.choice([cm.dyadic(rng, -64, 64, 4), rng.uniform(-1e3, 1e3), rng.uniform(-1, 1) * 10.0 ** rng.randint(-12, 12)])
+                      for _ in range(cnt)]
+                as_list = rng.random() < 0.4
+                ctx.stats.case('oracle:inverse', (_cfg_str(cfg), s, tuple(xs)))
+                _guard(ctx, 'inverse', {'op': 'inverse', 'cfg': cfg, 'units': s, 'value': xs, 'shape': list(shape),
+                                        'as_list': as_list}, _o_inverse, ctx, np, uc, cfg, s, xs, shape, as_list)
+            for s in [''] + rng.sample(valid, min(len(valid), ctx.n(100, 600) * mult)):
+                value = rng.choice(VALUE_LITS)
+                sep = rng.choice([' ', '  ', ' \t']) if s else ''
+                ctx.stats.case('oracle:set_literal', (_cfg_str(cfg), value, s))
+                _guard(ctx, 'set_literal', {'op': 'setlit', 'cfg': cfg, 'value': value, 'units': s, 'sep': sep},
+                       _o_setlit, ctx, uc, cfg, value, s, sep, vals)
+        # 4. working-unit independence
+        pairs = list(SAME_DIM)
+        tries = 0
+        want_pairs = ctx.n(150, 1200) * mult
+        while len(pairs) < want_pairs and tries < 20 * want_pairs:
+            tries += 1
+            tree = gen_tree(rng, rng.choice([1, 2, 3, 4, 5]), t.names)
+            try:
+                v, d, e = ev(tree, si_vals, t.dims, EU)
+            except (Outside, EvalErr):
+                continue
+            if v == 0:
+                continue
+            other = _base_expr(rng, t, d)
+            try:
+                ev(other, si_vals, t.dims, EU)
+            except (Outside, EvalErr):
+                continue
+            s1 = render(rng, tree, 2, messy=rng.choice([0.0, 0.3]), extra=rng.choice([0.0, 0.1]))
+            s2 = render(rng, other, 2, messy=rng.choice([0.0, 0.3]))
+            pairs.append((s1, s2) if rng.random() < 0.5 else (s2, s1))
+        for s1, s2 in pairs:
+            xs = [rng.choice([1.0, cm.dyadic(rng, -8, 8, 3), rng.uniform(-100, 100)]) for _ in range(rng.choice([1, 3]))]
+            use = rng.sample(cfgs, min(len(cfgs), 4))
+            ctx.stats.case('oracle:independence', (s1, s2, tuple(xs)), sample={'from': s1, 'to': s2, 'x': xs})
+            _guard(ctx, 'independence', {'op': 'indep', 's1': s1, 's2': s2, 'x': xs, 'cfgs': use},
+                   _o_indep, ctx, np, uc, s1, s2, xs, use, si_vals, t.dims)
+        # 5. style tables
+        scfgs = [{'kind': 'SI'}] + [c for c in cfgs if c['kind'] == 'seed'][:2]
+        for st in STYLES:
+            _guard(ctx, 'style', {'op': 'style', 'style': st}, _o_style, ctx, uc, lmp, st, t.dims, scfgs)
+    finally:
+        _restore()
+
+
+def replay(ctx, payload):
+    """re-run one stored case against the current tree (oracle clause by input; model disagreements by input)."""
+    np = _np()
+    import atomman.unitconvert as uc
+    import atomman.lammps as lmp
+    r = payload.get('replay', {}) or {}
+    if not r and payload.get('disagreements'):
+        r = payload['disagreements'][0]
+    op = r.get('op')
+    t = _tab()
+    _snapshot_default()
+    try:
+        cfg = r.get('cfg') or {'kind': 'named', 'kw': dict(DEFAULT_KW)}
+        if op == 'parse':
+            sc = _apply(cfg)
+            _guard(ctx, 'parse', r, _o_parse, ctx, uc, cfg, r['string'], _unit_fr(uc))
+            if ctx.driver is not None:
+                ctx.driver.ask('scales ' + ' '.join(cm.fr(x) for x in sc))
+                out = ctx.driver.ask('parseu ' + _cps(r['string']))
+                impl = _real_parse(uc, r['string'])
+                print('replay parse: implementation', impl, 'model', out if out.startswith('err') else float(Fraction(out)))
+                cls = classify(r['string'], _unit_fr(uc), EU)
+                tolf = (lambda mv: Fraction(_tol(mv, cls[2]))) if cls[0] == 'val' else (lambda mv: Fraction(1e-11) * abs(mv))
+                msg = _cmp_val(impl, out, tolf) if cls[0] != 'outside' else None
+                if msg:
+                    ctx.disagree('parse', msg, r)
+        elif op == 'inverse':
+            _apply(cfg)
+            _guard(ctx, 'inverse', r, _o_inverse, ctx, np, uc, cfg, r['units'], r['value'], tuple(r['shape']), r.get('as_list', False))
+        elif op == 'indep':
+            _apply({'kind': 'SI'})
+            si_vals = _unit_fr(uc)
+            _guard(ctx, 'independence', r, _o_indep, ctx, np, uc, r['s1'], r['s2'], r['x'], r['cfgs'], si_vals, t.dims)
+        elif op == 'reset':
+            kw = r['kw']
+            if 0 < len(kw) <= 4 and not _over(kw) and all(kw[k] in t.by_kind.get(k, []) for k in kw):
+                _guard(ctx, 'reset', r, _o_reset, ctx, uc, kw)
+            if ctx.driver is not None:
+                _corr_reset_one(ctx, uc, kw, True)
+        elif op == 'style' and r.get('style') in STYLES:
+            _guard(ctx, 'style', r, _o_style, ctx, uc, lmp, r['style'], t.dims, [{'kind': 'SI'}, {'kind': 'seed', 'seed': 11}])
+            if ctx.driver is not None:
+                _corr_styles(ctx, uc)
+        elif op == 'setlit' and 'value' in r:
+            _apply(cfg)
+            _guard(ctx, 'set_literal', r, _o_setlit, ctx, uc, cfg, r['value'], r['units'], r['sep'], _unit_fr(uc))
+        elif op == 'default':
+            search(ctx, False)
+        else:
+            if ctx.driver is not None:
+                correspond(ctx)
+            search(ctx, True)
+    finally:
+        _restore()
+    print(f'replay {op}: {"still fails" if (ctx.violations or ctx.disagreements) else "passes now"}')
+
+
+MANIFEST = {
+    'text': 'Lean 4 theorems over an executable model of uc.parse (character tokeniser with recursive parentheses, ^ reduced '
+            'first, then * / left to right, written once over an abstract value algebra): every rendering of every '
+            'expression tree in the ordinary grammar (any blanks, redundant parentheses, negative exponents, any depth) '
+            'parses to the value of the tree; set/get are mutually inverse for a non-zero factor; an expression that '
+            'evaluates to (v, dimension d) under SI evaluates to v * m^d1 kg^d2 s^d3 C^d4 K^d5 under any base-unit '
+            'scalings, hence conversions between equal-dimension expressions do not depend on the working units; after '
+            'reset_units with any non-over-determined choice of <= 4 named kinds every chosen unit of that dimension is '
+            'exactly 1 (square root as a parameter); all mechanical entries of the 8 LAMMPS style tables have the '
+            'dimension of their label (kernel-decided on tables regenerated from style.py and numericalunits on every '
+            'run). The model is tied to the code by the table translators and a differential run of uc.parse / '
+            'set_in_units / get_in_units / set_literal / reset_units / style.unit against the compiled model on '
+            'grammar-generated and malformed strings under SI, default, seeded and named working units.',
+    'note': 'Trusted: Lean kernel + propext/Classical.choice/Quot.sound; the table translators (harness/props/c09.py); '
+            'numericalunits and numpy; x**0.5 is a parameter with r*r = x; float rounding by first-order bounds derived '
+            'from the expression tree; non-integer exponents, rtHz, exotic float() spellings and two malformed classes '
+            '(leading ^ loops forever, a parenthesised lone * or / acts as an operator) are outside the model.',
+    'technique': 'Lean 4 theorems over a hand-written model + translator-generated tables + differential correspondence',
+}
